@@ -14,6 +14,8 @@
 (*   env     PENNE_BACKEND (build) / PENNE_LLI (run) set                   *)
 (*   cfg     --config FILE with `backend = ...`   (build)                  *)
 (*   bfail   the selected backend exits with a non-zero status             *)
+(*   bsig    ... or rather does not exit at all: it is killed by a signal  *)
+(*           (crash, out-of-memory kill), so that it HAS no exit status    *)
 (*   input   valid | lex (invalid character) | sem (undefined variable)    *)
 (*   nmods   1 | 2   (with 2 the fault is in the imported module)          *)
 (*   path    relative (a.pn) | nested (src/a.pn)                           *)
@@ -37,9 +39,11 @@ Paths == {"relative", "nested"}
 Configs ==
     { c \in [sub : Subs, implicit : BOOLEAN, verb : Verbs, color : Colors, arrows : Arrows, wasm : BOOLEAN, outdir : BOOLEAN,
              flag : BOOLEAN, env : BOOLEAN, cfg : BOOLEAN, bfail : BOOLEAN, input : Inputs, nmods : {1, 2},
-             path : Paths, high : BOOLEAN] :
+             path : Paths, high : BOOLEAN, bsig : BOOLEAN] :
         \* the exit status of the program only exists for `run` of a valid program; a fake lli has one only when told to fail
         /\ c.high => (c.sub = "run" /\ c.input = "valid" /\ ((~c.flag /\ ~c.env) \/ c.bfail))
+        \* a backend killed by a signal is a failing backend without a status of its own
+        /\ c.bsig => (c.bfail /\ ~c.high)
         /\ c.implicit => c.sub = "build"
         /\ c.sub = "emit" => (~c.flag /\ ~c.env /\ ~c.cfg /\ ~c.bfail)      \* emit has no backend
         /\ c.sub = "run" => (~c.cfg /\ ~c.wasm)                             \* run has neither --config nor --wasm
@@ -57,7 +61,8 @@ Backend(c) == IF c.sub = "emit" THEN "none"
 CompileOK(c) == c.input = "valid"
 BackendInvoked(c) == CompileOK(c) /\ c.sub # "emit"
 \* `run` shows the exit status of the program it ran; that status does not make the run a failure
-BackendOK(c) == c.sub = "run" \/ ~c.bfail
+\* ... but a backend that was killed did not succeed, whatever the subcommand, and has no status to show
+BackendOK(c) == ~c.bsig /\ (c.sub = "run" \/ ~c.bfail)
 \* "exits with status 0 exactly when compilation (and the backend it invoked) succeeded"
 ExitZero(c) == CompileOK(c) /\ (c.sub = "emit" \/ BackendOK(c))
 \* "a successful penne emit --out-dir D leaves a .pn.ll file with the module's IR for every module"
@@ -75,7 +80,7 @@ SilentStdout(c) == c.verb = "silent"
 RunStatus(c) == IF c.sub # "run" \/ ~CompileOK(c) THEN 999
                 ELSE IF Backend(c) = "default" THEN (IF c.high THEN 200 ELSE 3)
                 ELSE IF c.bfail THEN (IF c.high THEN 200 ELSE 7) ELSE 0
-ShowsStatus(c) == c.sub = "run" /\ CompileOK(c) /\ c.verb # "silent"
+ShowsStatus(c) == c.sub = "run" /\ CompileOK(c) /\ c.verb # "silent" /\ ~c.bsig
 \* build: the output file goes to the out dir, extension wasm for --wasm ("Write binary output ... to this directory")
 OutExt(c) == IF c.sub = "build" /\ CompileOK(c) THEN (IF c.wasm THEN "wasm" ELSE "native") ELSE "none"
 \* --wasm: "Set target to 'wasm32-unknown-wasi'"
